@@ -1,6 +1,6 @@
 (* Runner.v — top of the executable model: dispatches one request line. *)
 From Coq Require Import String.
-From GS Require Import GoSem Text Dispatch DispatchHuman DispatchParsers DispatchScan DispatchRef DispatchConfig.
+From GS Require Import GoSem Text Dispatch DispatchHuman DispatchParsers DispatchScan DispatchRef DispatchConfig DispatchOutput.
 Open Scope N_scope.
 
 Definition first_some (l : list (option bytes)) : bytes :=
@@ -16,6 +16,7 @@ Definition dispatch (line : bytes) : bytes :=
                    dispatch_parsers cmd args;
                    dispatch_scan cmd args;
                    dispatch_ref cmd args;
-                   dispatch_config cmd args ]
+                   dispatch_config cmd args;
+                   dispatch_output cmd args ]
   | [] => err "empty"
   end.
